@@ -1,6 +1,7 @@
 package actionlint
 
 import (
+	"sort"
 	"strconv"
 	"strings"
 )
@@ -162,7 +163,22 @@ func collectCycle(src *jobNode, edges map[*jobNode]*jobNode) bool {
 // https://inzkyk.xyz/algorithms/depth_first_search/detecting_cycles/
 
 func detectFirstCycle(nodes map[string]*jobNode) *edge {
+	// Start searching from the job at the smallest position. Iterating the map directly makes the
+	// detected cycle random when there are multiple cycles.
+	sorted := make([]*jobNode, 0, len(nodes))
 	for _, v := range nodes {
+		sorted = append(sorted, v)
+	}
+	sort.Slice(sorted, func(i, j int) bool {
+		if sorted[i].pos.IsBefore(sorted[j].pos) {
+			return true
+		}
+		if sorted[j].pos.IsBefore(sorted[i].pos) {
+			return false
+		}
+		return sorted[i].id < sorted[j].id
+	})
+	for _, v := range sorted {
 		if v.status == nodeStatusNew {
 			if e := detectCyclicNode(v); e != nil {
 				return e
